@@ -107,7 +107,7 @@ def op_lists(draw, cfg, min_ops=1, max_ops=12, max_sweep=40, allow_zero=True, al
     n = cfg["grid"]
     ops = []
     k = draw(st.integers(min_ops, max_ops))
-    kinds = ["q", "q", "q", "sweep", "sweepback", "zoom", "req", "trial", "pad100"]
+    kinds = ["q", "q", "q", "sweep", "sweepback", "zoom", "req", "trial", "trial_re", "pad100"]
     if allow_zero:
         kinds.append("zero")
     if allow_point:
@@ -140,6 +140,18 @@ def op_lists(draw, cfg, min_ops=1, max_ops=12, max_sweep=40, allow_zero=True, al
             i = draw(st.integers(0, n - 2))
             j = draw(st.integers(i + 2, n))
             ops.append(["trial", i, j])
+        elif kind == "trial_re":
+            # an interval, its two halves, k further fresh queries, then the interval again: whether the interval is still
+            # cached, only its halves are, or nothing is, depends on k relative to cache_size
+            i = draw(st.integers(0, n - 2))
+            j = draw(st.integers(i + 2, n))
+            cs = cfg.get("cache_size")
+            ks = [0, 1, 2, 3, 5] + ([max(0, cs - 3), max(0, cs - 2), max(0, cs - 1), cs] if isinstance(cs, int) and cs <= 50
+                                    else [])
+            # where the k further queries go: -1 = ever shorter intervals starting at the left end of the interval (computed
+            # from the cached left half, one new cache entry each), otherwise unit cells starting at that grid index
+            ops.append(["trial_re", i, j, draw(st.sampled_from(ks)),
+                        draw(st.one_of(st.just(-1), st.just(-1), st.integers(0, n - 1)))])
         elif kind == "zero":
             ops.append(["zero", draw(st.integers(0, n))])
         elif kind == "pt":
@@ -194,6 +206,25 @@ def expand(case):
             add(i, j)
             add(i, m)
             add(m, j)
+        elif kind == "trial_re":
+            _, i, j, k, start = op
+            m = (i + j) // 2
+            add(i, j)
+            add(i, m)
+            add(m, j)
+            if start < 0:
+                a_, m_ = time_of(cfg, i), time_of(cfg, m)
+                for s_ in range(1, k + 1):
+                    b_ = a_ + (m_ - a_) / 2 ** s_
+                    if cfg["tol"] > 0:
+                        b_ = round(b_, ndigits_of(cfg["tol"]))
+                    if a_ < b_ < m_:
+                        out.append((a_, b_))
+            else:
+                for s_ in range(k):      # k fresh unit cells elsewhere (each a new single node once the tree is refined)
+                    c = (start + s_) % cfg["grid"]
+                    add(c, c + 1)
+            add(i, j)
         elif kind == "zero":
             add(op[1], op[1])
         elif kind == "pt":             # point evaluation: represented as (None, t)
